@@ -34,6 +34,9 @@ func (i *JsByte) UnmarshalJSON(b []byte) error {
 	if lb < 2 {
 		return ErrInvalidByteJs
 	}
+	if b[0] != '"' || b[lb-1] != '"' {
+		return ErrInvalidByteJs
+	}
 
 	strBuf := string(b[1 : lb-1])
 	return i.FromString(strBuf)
